@@ -133,7 +133,8 @@ def check_unary(spec, stats):
     if any(p.default is not None for p in spec):
         # the same laws with defaults that are false in a boolean context (and the signature of another function that
         # spells the same parameters: what both inputs agree on is kept)
-        falsy = ('0', 'False', "''", '()', '0.0', 'None', 'frozenset()')
+        # ... and with defaults that cannot be hashed: two functions spelling the same default hold equal, distinct objects
+        falsy = ('0', 'False', "''", '()', '0.0', 'None', 'frozenset()', '[]', "['x', 'y']", '{}', "{'k': 1}", 'set()')
         k = [0]
 
         def nxt(p):
